@@ -28,7 +28,7 @@ class Pull:
     """
 
     def __init__(self, name, status, more, eof=None, stream_end=None, count='ret', positive=False, stream_arg=None, reinit=(),
-                 unused=None, names=None):
+                 unused=None, names=None, file_arg=None):
         self.name = name
         self.status = status
         self.more = more
@@ -40,6 +40,9 @@ class Pull:
         self.reinit = set(reinit)
         self.unused = unused
         self.names = names or {}
+        # index of the FILE* argument of a reinit call when the library reads the file itself: it reads in blocks, so "no unused
+        # bytes" does not mean "no more input" (the stream may end exactly on a block) -- only an end-of-file probe does
+        self.file_arg = file_arg
 
     def statuses(self):
         out = [('more', self.more)]
@@ -57,7 +60,7 @@ PULLS = {
     # libbz2 high level: *bzerror BZ_OK (0): the buffer was filled completely (len > 0); BZ_STREAM_END (4): the logical end of
     # one stream, return value = bytes produced (possibly 0)
     'BZ2_bzRead': Pull('BZ2_bzRead', ('out', 0), E.fin(0), stream_end=E.fin(4), positive=True, reinit={'BZ2_bzReadOpen'},
-                       unused=('query', 'BZ2_bzReadGetUnused', 2, 3), names={'more': 'BZ_OK', 'stream-end': 'BZ_STREAM_END'}),
+                       unused=('query', 'BZ2_bzReadGetUnused', 2, 3), names={'more': 'BZ_OK', 'stream-end': 'BZ_STREAM_END'}, file_arg=1),
     # zlib inflate: Z_OK (0) progress was made (possibly on the input only: zero bytes produced), Z_STREAM_END (1)
     'inflate': Pull('inflate', 'ret', E.fin(0), stream_end=E.fin(1), count='stream', stream_arg=0,
                     reinit={'inflateReset', 'inflateReset2', 'inflateInit_', 'inflateInit2_'}, unused=('avail_in',),
@@ -67,6 +70,17 @@ PULLS = {
                              reinit={'BZ2_bzDecompressInit'}, unused=('avail_in',),
                              names={'more': 'BZ_OK', 'stream-end': 'BZ_STREAM_END'}),
 }
+
+# Where a decompressor may take the read offset it reports from (Reader::offset() is compared with the file size):
+OFFSET_COMPRESSED = {'gzoffset', 'gzoffset64', 'ftell', 'ftello', 'ftello64', 'lseek', 'lseek64'}   # position in the (compressed) file
+OFFSET_UNCOMPRESSED = {'gztell', 'gztell64'}                                                          # position in the decoded data
+# End-of-file probes on a FILE*: a byte is fetched (and pushed back); EOF == -1
+EOF_PROBES = {'fgetc', 'getc', 'fgetc_unlocked', 'getc_unlocked', '_IO_getc'}
+EOF_FLAG = {'feof', 'feof_unlocked'}
+# extern "C" functions of the read side without an error convention that osmlint/errdisc.py does not list
+LOCAL_IGNORABLE = dict({n: 'offset source (rule O1)' for n in OFFSET_COMPRESSED | OFFSET_UNCOMPRESSED},
+                       **{n: 'end-of-file probe: the result is the tested value (rule X2)' for n in EOF_PROBES | EOF_FLAG},
+                       ungetc='push-back of the probed byte; cannot fail for one byte after a successful read')
 
 # handle-producing open function -> functions that close such a handle (read side)
 OPEN_CLOSE = {
@@ -496,6 +510,26 @@ def count_resizes(fn, call, pull, X):
     return valid, unknown
 
 
+def sized_probes(fn, call, pull, X):
+    """size() / length() / empty() calls on the returned string that speak about the library's byte count: the string has been
+    cut to the count on every path from the pull call to the probe (a probe the loop condition makes before the resize sees the
+    full buffer, not the count)."""
+    if X is None:
+        return set()
+    valid, _unknown = count_resizes(fn, call, pull, X)
+    vids = {n['id'] for n in valid}
+    after = set(fn.elems_after(call['id']))
+    out = set()
+    for n in fn.all_nodes():
+        if n.get('k') == 'call' and string_call_on(fn, n, X, {'size', 'length', 'empty'}):
+            e = element_of(fn, n['id'])
+            if e is None or e not in after or not vids:
+                continue
+            if path_search(fn, call['id'], lambda t: t == e, lambda t: t in vids) is None:
+                out.add(n['id'])
+    return out
+
+
 def count_test_elements(fn, call, pull, X):
     """Elements of branch conditions that read the number of bytes produced (count variable, stream output cursor, size of the
     returned string): a path that passes one of them has looked at the count before returning."""
@@ -504,6 +538,7 @@ def count_test_elements(fn, call, pull, X):
     sq = stream_field(fn, call, pull)
     out = set()
     after = set(fn.elems_after(call['id']))
+    sized = sized_probes(fn, call, pull, X)
 
     def mentions(c, depth=0):
         for x in fn.subtree(c):
@@ -512,7 +547,7 @@ def count_test_elements(fn, call, pull, X):
                 return True
             if sq is not None and is_stream_member(fn, x, sq, {'next_out', 'avail_out', 'total_out'}):
                 return True
-            if X is not None and string_call_on(fn, n, X, {'size', 'length', 'empty'}):
+            if x in sized:
                 return True
             # a named local computed from the count after this pull: `const bool no_output = avail_out == buffer_size;`
             if depth < 2 and n.get('k') == 'var' and n.get('vk') == 'local' and n.get('d') != cv:
@@ -1203,11 +1238,12 @@ def input_test_elements(fn, call, pull):
     return out
 
 
-def _string_probe_nodes(fn, call, X):
+def _string_probe_nodes(fn, call, X, pull=None):
     after = set(fn.elems_after(call['id']))
+    sized = sized_probes(fn, call, pull, X) if pull is not None else None
     out = {'empty': [], 'size': []}
     for n in fn.all_nodes():
-        if n.get('k') == 'call' and n['id'] in after and X is not None:
+        if n.get('k') == 'call' and n['id'] in after and X is not None and (sized is None or n['id'] in sized):
             if string_call_on(fn, n, X, {'empty'}):
                 out['empty'].append(n['id'])
             elif string_call_on(fn, n, X, {'size', 'length'}):
@@ -1233,7 +1269,7 @@ def no_output_env(fn, call, pull, X):
         for x in fn.nodes:
             if is_stream_member(fn, x, sq, {'avail_out'}) and element_of(fn, x) in after:
                 env[('node', x)] = E.fin(given) if given is not None else E.ge(1)
-    pr = _string_probe_nodes(fn, call, X)
+    pr = _string_probe_nodes(fn, call, X, pull)
     for x in pr['empty']:
         env[('node', x)] = E.fin(1)
     for x in pr['size']:
@@ -1246,9 +1282,25 @@ def has_output_env(fn, call, pull, X):
     env = {}
     if pull.count == 'ret' and pull.status != 'ret':
         env[('node', call['id'])] = E.ge(1)
-    pr = _string_probe_nodes(fn, call, X)
+    pr = _string_probe_nodes(fn, call, X, pull)
     for x in pr['empty']:
         env[('node', x)] = E.fin(0)
     for x in pr['size']:
         env[('node', x)] = E.ge(1)
+    return env
+
+
+def file_has_more_env(fn, call):
+    """environment entries saying "the FILE the library reads from is not at its end": a byte probe (fgetc ...) after the pull call
+    yields a byte (>= 0, not EOF); feof() is false where such a probe precedes it (without a probe feof() only tells whether an
+    earlier read hit the end, which a block-wise reader that stopped exactly at the end of a block has not done)."""
+    env = {}
+    after = set(fn.elems_after(call['id']))
+    probes = [n for n in fn.all_nodes() if E.is_extern_c(n) and n['q'] in EOF_PROBES and n['id'] in after]
+    for n in probes:
+        env[('node', n['id'])] = E.ge(0)
+    for n in fn.all_nodes():
+        if E.is_extern_c(n) and n['q'] in EOF_FLAG and n['id'] in after:
+            if any(fn.elem_dominates(p['id'], n['id']) and fn.elem_dominates(call['id'], p['id']) for p in probes):
+                env[('node', n['id'])] = E.fin(0)
     return env
